@@ -127,3 +127,38 @@ PROPS["C16"] = dict(module="Grenad.Props.C16", streams={"cursor": (640, 6400), "
                     rules={"ops": ["c", "open", "file"], "loads": True, "fingerprint": False})
 PROPS["C17"] = dict(extra=extra_c17, module="Grenad.Props.C17", streams={"sorter": (960, 9600)}, rules={"ops": ["sins", "snew", "sfinish"], "alloc": True})
 PROPS["C18"] = dict(module="Grenad.Props.C18", streams={"unsorted": (960, 9600)}, rules={"ops": ["ins", "finish"], "blocks": True})
+
+
+# ---------------------------------------------------------------- texts for MANIFEST.json
+
+_COMMON_NOTE = ("Trusted: Lean 4.33 kernel; axioms propext / Classical.choice / Quot.sound only (audited per theorem on every run); "
+                "the theorems are about the hand-written model in lean/Grenad/Model, tied to /repo by the correspondence check "
+                "(harness + gmodel + L0 spec + independent decoder), which is sampled, not proved; codec crates (lawfulness), std "
+                "(BinaryHeap, sorts, binary_search, write_all/read_exact/read_to_end) and rayon are modelled by their contracts.")
+
+TEXTS = {
+ "C01": ("C01_roundtrip: for every lawful codec, configuration and strictly ascending input the model writer succeeds and the byte-level model reader opens the file (version/codec/count/levels) and scans it forward and backward exactly; C01_bytes_history: every cursor history on the written file agrees with the specification cursor. Composition of T-writer, T-block, simulation lifting and T-cursor. Tie: whole-file bytes for all six codecs, block layout, scans, 0.4.7 matrix.",
+         "Output-size side conditions (file < 2^64 bytes, blocks < 2^32 bytes) are hypotheses. " + _COMMON_NOTE),
+ "C02": ("C02_ge/le/eq (+ _from any reachable state, _after any history, _reset): the multi-level cursor over any well-formed file returns exactly ceiling/floor/lookup, for all probes and index depths; byte-level versions in Props/C01.", _COMMON_NOTE),
+ "C03": ("C03_step/C03_history/C03_clone: every finite history of the repaired cursor agrees with the specification cursor (results depend on content and logical position only); invariant = cache soundness + root-to-leaf path. C03_counterexample_pinned shows the pinned code violated it (finding F1, fixed). Tie also compares the recorded index offsets after every operation and runs every history of length <= 3 on small deep files.", _COMMON_NOTE),
+ "C04": ("C04_range / C04_range_rev for all nine bound-kind pairs with arbitrary (also inverted) bounds, over the specification cursor and over any cursor refining it; byte-level C04_bytes_* in Props/C01.", _COMMON_NOTE),
+ "C05": ("C05_prefix / C05_prefix_rev for all prefixes, advanceKey_spec/none; the reverse iterator's side condition (current() after a failed floor seek) is proved necessary and discharged for the byte-level reader.", _COMMON_NOTE),
+ "C06": ("C06_run/C06_merge/C06_calls/C06_sorted/C06_lone/C06_merge_err: the k-way merge equals the grouped union, one merge call per key in key order with values in source order, for any number of sources and any (also failing) merge function.", "std BinaryHeap is replaced by 'pop the minimum of (key, source index)'. " + _COMMON_NOTE),
+ "C07": ("C07_stable/C07_keys/C07_any_order: the sorter output equals group-by-key of all inserts (values in insertion order under the stable sort, some permutation under any key-sorted permutation), for EVERY spill / chunk-merge schedule — the content invariant does not mention thresholds.", "Unstable and parallel sorts are modelled as an arbitrary key-sorted permutation chosen at each spill. " + _COMMON_NOTE),
+ "C08": ("C08_volume*/C08_chunks/C08_creator by induction over unboundedly many inserts of the numeric buffer state machine; bounds also evaluated directly on the implementation's fingerprint and chunk events.", "Entry-size hypotheses (2*size <= budget, resp. size <= budget without realloc) are necessary (counterexamples in the module). " + _COMMON_NOTE),
+ "C09": ("C09_conforms (WellFormedV2: layout, trailer, offsets, per-level index entries, data concatenation) and C09_spec_decoder (an independent decoder recovers the input). The grenad 0.4.7 half cannot be a Lean theorem: it is checked by the correspondence matrix (old reader on new files, new reader on old files, byte equality of the two writers) — exploration strength for that half.", "0.4.7 interop is sampled only. " + _COMMON_NOTE),
+ "C10": ("C10_open pins the 21-byte V1 trailer layout; C10_same_blocks / C10_same_cursor: the blocks and the initial cursor state are identical for the V1 and V2 trailers, so all results coincide (they are functions of block loads); V1 files are built by the harness from real V2 files and every query is compared.", _COMMON_NOTE),
+ "C11": ("writeAll/writeMany/readExact/readToEndTake are schedule independent (full characterisations under arbitrary schedules); the counter equals the offset at each block start; every reader-side result factors through loadBlock, hence is schedule independent. Tie: random per-call write schedules, choppy/short/interrupted sources and chunk storage.", "std loops modelled from their documented contract; framed decoders assumed to consume input through Read (finding F3 was a violation of exactly that by lz4_flex, repaired in grenad). " + _COMMON_NOTE),
+ "C12": ("C12_write_fault/C12_read_fault/C12_cursor_*/C12_merge_fault/C12_sorter_*: a consumed fault is reported by the current call with its tag, nothing is reported without a fault, no trap is converted. Thin by nature in a monadic model; the weight is on exhaustive fault enumeration in the tie (every write call, every seek/read, every merge call, every create; chunk-storage operations through an implementation-only oracle).", _COMMON_NOTE),
+ "C13": ("C13_open_iff: Meta.parse succeeds exactly on byte strings ending in a valid trailer (stated on the bytes), total (no trap), fields as specified; truncations; the sink holds a prefix under any schedule. Tie: every truncation and single-bit/byte trailer corruption, structured malformed stream, plus the same predicate evaluated directly on the implementation.", _COMMON_NOTE),
+ "C14": ("C14_roundtrip/C14_width/C14_entry for all v < 2^32 and all lengths; tie exhaustive over all 2^32 values in the thorough tier (digest per shard, bisected on mismatch), boundaries and samples in the quick tier.", _COMMON_NOTE),
+ "C15": ("C15_cut/C15_bound/C15_pending/C15_clamp for arbitrary insert sequences and configurations: every data block and every index block more than one level below the root is below B without its final entry and at least B when emitted by a cut. Also evaluated on every generated file by the independent decoder.", _COMMON_NOTE),
+ "C16": ("C16_loads: any single operation from any state with the shape invariant loads at most 2*(levels+2) blocks, for ANY loader and bytes (no well-formedness needed), with tight per-operation bounds; C16_open. Tie: block loads per operation compared one-sidedly (impl <= model) and against the bound.", _COMMON_NOTE),
+ "C17": ("Arithmetic half proved (C17_invariant, C17_no_trap, C17_fuel, C17_alloc_pairing: guarded buffer primitives never trap, one live allocation, equal layouts, nothing live at the end). The pointer-level half (provenance of from_raw_parts, soundness of the lifetime transmutes) is not expressible in an executable model: PARTIAL — explored by the allocation-trace oracle on every sorter scenario and by Miri in the thorough tier.", "Pointer-level memory safety is explored, not proved. " + _COMMON_NOTE),
+ "C18": ("C18_sorted_or_trap/C18_traps/C18_trap_point/C18_trap_first/C18_sorted_input_ok for arbitrary (unsorted, duplicate-laden) insert sequences: either a named trap or every emitted block, data and index alike, is strictly ascending.", _COMMON_NOTE),
+}
+for _p, (_t, _n) in TEXTS.items():
+    if _p in PROPS:
+        PROPS[_p]["level_text"] = _t
+        PROPS[_p]["level_note"] = _n
+        PROPS[_p]["design_ref"] = "DESIGN.md §5 (" + _p + "), §3, §6"
